@@ -66,7 +66,19 @@ fn v3_connect_into_v5(c: v3::Connect, ctx: &mut Ctx) -> CaseResult {
     ensure!(a == Err(want.clone()), "v5 async decoder on a {} CONNECT returned {:?} instead of Err({:?})", proto, a.map(|q| fam::render(&q)), want);
     ensure!(used == gate, "v5 async decoder consumed {} bytes before refusing a {} CONNECT; protocol name and level end at byte {}", used, proto, gate);
     let pr = fam::dec_poll::<V5>(&enc);
-    ensure!(pr.result.as_ref().err() == Some(&want), "v5 poll decoder on a {} CONNECT returned {:?} instead of Err({:?})", proto, pr.result.map(|q| fam::render(&q.pkt)), want);
+    ensure!(pr.result.as_ref().err() == Some(&want), "v5 poll decoder on a {} CONNECT returned {:?} instead of Err({:?})", proto, pr.result.as_ref().map(|q| fam::render(&q.pkt)), want);
+    // the poll front-end has necessarily drained the whole frame; what remains after name and level is in the
+    // caller-held state, and continuing from there must give the native CONNECT too
+    match &pr.final_body {
+        Some((body, blen)) => {
+            ensure!(*blen == enc.len() - hl && body[..] == enc[hl..], "after the v5 poll decoder refused a {} CONNECT the caller-held state holds {} of {} body bytes ({} received); the refused CONNECT cannot be handed to the v3 family", proto, blen, enc.len() - hl, body.len());
+            let mut rest: &[u8] = &body[gate - hl..];
+            let cont = block_on(v3::Connect::decode_with_protocol(&mut rest, proto));
+            ensure!(matches!(&cont, Ok(c2) if *c2 == c) && rest.is_empty(), "continuing from the poll state with v3 decode_with_protocol({}) yields {:?}", proto, cont.map(|x| fam::render(&x)));
+            ctx.label("continued-from-poll-state");
+        }
+        None => viol!("after the v5 poll decoder refused a {} CONNECT the caller-held state no longer holds the body: the refused CONNECT cannot be handed to the v3 family", proto),
+    }
 
     partial_refusal::<V5>(&enc, gate, &want, &format!("{} CONNECT into the v5 family", proto), ctx)?;
 
@@ -145,7 +157,18 @@ fn v5_connect_into_v3(c: v5::Connect, ctx: &mut Ctx) -> CaseResult {
     ensure!(a == Err(want.clone()), "v3 async decoder on a v5.0 CONNECT returned {:?} instead of Err({:?})", a.map(|q| fam::render(&q)), want);
     ensure!(used == gate, "v3 async decoder consumed {} bytes before refusing a v5.0 CONNECT; protocol name and level end at byte {}", used, gate);
     let pr = fam::dec_poll::<V3>(&enc);
-    ensure!(pr.result.as_ref().err() == Some(&want), "v3 poll decoder on a v5.0 CONNECT returned {:?} instead of Err({:?})", pr.result.map(|q| fam::render(&q.pkt)), want);
+    ensure!(pr.result.as_ref().err() == Some(&want), "v3 poll decoder on a v5.0 CONNECT returned {:?} instead of Err({:?})", pr.result.as_ref().map(|q| fam::render(&q.pkt)), want);
+    match &pr.final_body {
+        Some((body, blen)) => {
+            ensure!(*blen == enc.len() - hl && body[..] == enc[hl..], "after the v3 poll decoder refused a v5.0 CONNECT the caller-held state holds {} of {} body bytes ({} received); the refused CONNECT cannot be handed to the v5 family", blen, enc.len() - hl, body.len());
+            let header = v5::Header::decode(&enc).map_err(|e| Violation::new(format!("v5 Header::decode failed on a v5 CONNECT: {:?}", e)))?;
+            let mut rest: &[u8] = &body[gate - hl..];
+            let cont = block_on(v5::Connect::decode_with_protocol(&mut rest, header, Protocol::V500));
+            ensure!(matches!(&cont, Ok(c2) if *c2 == c) && rest.is_empty(), "continuing from the poll state with v5 decode_with_protocol yields {:?}", cont.map(|x| fam::render(&x)));
+            ctx.label("continued-from-poll-state");
+        }
+        None => viol!("after the v3 poll decoder refused a v5.0 CONNECT the caller-held state no longer holds the body: the refused CONNECT cannot be handed to the v5 family"),
+    }
 
     partial_refusal::<V3>(&enc, gate, &want, "v5.0 CONNECT into the v3 family", ctx)?;
 
@@ -367,6 +390,8 @@ pub fn run(env: &mut Env) -> RunResult {
     env.require("c13.v3-into-v5", "v3.1.1->v5");
     env.require("c13.v5-into-v3", "v5->v3");
     env.require("c13.v5-into-v3", "partly-buffered-connect-refused");
+    env.require("c13.v5-into-v3", "continued-from-poll-state");
+    env.require("c13.v3-into-v5", "continued-from-poll-state");
     env.require("c13.v3-into-v5", "partly-buffered-connect-refused");
     env.require("c13.grid", "grid:legal-pair");
     env.require("c13.grid", "grid:invalid-pair");
